@@ -132,6 +132,18 @@ var Corruptions = func() []Corruption {
 			k := rapid.SampledFrom([]string{"id", "pubkey", "created_at", "kind", "tags", "content", "sig"}).Draw(t, "drop")
 			return withEvent(m, func(o JObj) J { return ObjDel(o, k) })
 		}},
+		{"event-member-missing-and-duplicate", isEv, func(t *rapid.T, m *WireMsg) JArr {
+			keys := []string{"id", "pubkey", "created_at", "kind", "tags", "content", "sig"}
+			k := rapid.SampledFrom(keys).Draw(t, "drop")
+			d := rapid.SampledFrom(keys).Draw(t, "dup")
+			return withEvent(m, func(o JObj) J {
+				out := ObjDel(o, k)
+				if i := ObjGet(out, d); i >= 0 {
+					out = append(out, out[i])
+				}
+				return out
+			})
+		}},
 		{"event-member-extra", isEv, func(t *rapid.T, m *WireMsg) JArr {
 			k := rapid.SampledFrom([]string{"foo", "ID", "Id", "", "kinds"}).Draw(t, "extra")
 			return withEvent(m, func(o JObj) J { return append(append(JObj(nil), o...), JField{K: k, V: JRaw("1")}) })
